@@ -15,6 +15,9 @@
 (*                handleRequestResponse : 1781                             *)
 (*   TimeoutAll   the request time-out of every pending call elapses       *)
 (*   Notify(..)   Tx / TxUpdate with a message id, InSync, Headers         *)
+(*   Subscribe(m) a subscription message of the application (: 180-276):   *)
+(*                written at once while the handshake is open (sendDirect, *)
+(*                ahead of queued requests), through the queue afterwards  *)
 (*   Drop         the connection is lost, the client reconnects            *)
 (*   Stop         the application interrupts Run                           *)
 (***************************************************************************)
@@ -22,6 +25,7 @@ EXTENDS Integers, Sequences, FiniteSets, TLC
 
 CONSTANTS NCalls, Keys, Full,      \* Full = TRUE: connection type "full" (the handshake ends with Ready)
           MaxSteps, MaxNote,
+          Subs,                    \* the subscription messages the application sends (a subset of SubNames)
           Fix                      \* repaired defects assumed: subset of {"rejectnohash"}
 
 Kinds == {"GetTx", "GetHeader", "GetHeaders", "ReprocessTx", "MarkInvalid", "MarkNotInvalid", "SendTx", "FeeQuotes"}
@@ -112,6 +116,13 @@ RespondStale(i, form) ==
   /\ act' = A("RespondStale", (IF form = "ok" THEN 0 ELSE 1), stale[i].kind, stale[i].key)
   /\ UNCHANGED <<ep, acc, hs, nextId, calls, sent, order, queue, srv, deliv, run, had>>
 
+SubNames == {"subscribe_push_data", "unsubscribe_push_data", "subscribe_tx", "unsubscribe_tx", "subscribe_outputs", "unsubscribe_outputs",
+             "subscribe_headers", "unsubscribe_headers", "subscribe_contracts", "unsubscribe_contracts"}
+Subscribe(m) ==
+  /\ Step /\ Len(srv) < MaxNote + 6
+  /\ srv' = Append(srv, [t |-> m, key |-> -1, hs |-> hs])
+  /\ act' = A("Subscribe", 0, m, 0) /\ UNCHANGED <<ep, acc, hs, nextId, calls, sent, order, queue, stale, deliv, run, had>>
+
 TimeoutAll ==
   /\ Step /\ \E k \in Slots : calls[k].st = "pending"
   /\ calls' = [k \in Slots |-> IF calls[k].st = "pending" THEN [calls[k] EXCEPT !.st = "done", !.res = "timeout"] ELSE calls[k]]
@@ -143,12 +154,13 @@ Next == \/ \E v \in {"valid", "wrongkey", "otherhash", "badsig", "counts", "repl
         \/ \E i \in 1..Len(stale), f \in {"ok", "reject"} : RespondStale(i, f)
         \/ TimeoutAll
         \/ \E kind \in {"tx", "upd", "insync", "hdrs"}, id \in 1..5 : Notify(kind, id)
+        \/ (\E m \in Subs : Subscribe(m))
         \/ Drop \/ Stop
 Spec == Init /\ [][Next]_vars
 
 -----------------------------------------------------------------------------
 (* properties *)
-Handshake == {"ready", "register"}
+Handshake == {"ready", "register"} \cup SubNames        \* what may be written before the handshake of a connection completes
 Correlated == \A k \in Slots : (calls[k].st = "done" /\ calls[k].res = "ok") => calls[k].rkey = calls[k].key          \* C16
 Gated == \A i \in 1..Len(srv) : srv[i].t \notin Handshake => srv[i].hs                                                  \* C18
 DataIds == SelectSeq(deliv, LAMBDA d : d.kind \in {"tx", "upd"})
@@ -179,10 +191,11 @@ DropP(s, t, e) == (e.a = "Drop") => (t.nextId = s.nextId /\ t.deliv = s.deliv /\
 FlushP(s, t, e) == ((e.a = "Ready") \/ (e.a = "Accept" /\ e.kind = "valid" /\ ~Full)) =>                                   \* C18: queued requests go out with the handshake
    \A k \in Slots : t.calls[k].st = "pending" => t.sent[k]
 WrittenP(t) == \A k \in Slots : (t.calls[k].st = "done" /\ t.calls[k].res \in {"ok", "reject"}) => t.sent[k]               \* C18: no answer without a written request
-QuietP(s, t, e) == (e.a \in {"Call", "Respond", "RespondStale", "Timeout", "Stop"} /\ ~(e.a = "Respond" /\ s.calls[e.k].kind = "GetHeaders"))
+SubscribeP(s, t, e) == (e.a = "Subscribe") => t.srv = Append(s.srv, [t |-> e.kind, key |-> -1, hs |-> s.hs])               \* C18: subscriptions do not wait
+QuietP(s, t, e) == (e.a \in {"Call", "Respond", "RespondStale", "Timeout", "Stop", "Subscribe"} /\ ~(e.a = "Respond" /\ s.calls[e.k].kind = "GetHeaders"))
                      => (t.deliv = s.deliv /\ t.nextId = s.nextId)                                                          \* C17: nothing else reaches handlers
 StepProps == [][AcceptP(S, S', act') /\ NotifyP(S, S', act') /\ RespondP(S, S', act') /\ AnsweredP(S, S', act') /\ TimeoutP(S, S', act')
                 /\ ReadyP(S, S', act') /\ NotifyOtherP(S, S', act') /\ DropP(S, S', act') /\ FlushP(S, S', act') /\ WrittenP(S')
-                /\ QuietP(S, S', act')]_vars
+                /\ QuietP(S, S', act') /\ SubscribeP(S, S', act')]_vars
 RejectProps == [][RejectSurfacesP(S, S', act')]_vars
 =============================================================================
